@@ -6,6 +6,24 @@ VERIF = os.path.dirname(os.path.dirname(os.path.abspath(__file__)))
 RUN = 'PYTHONPATH=/repo:/verif /venv/bin/python -B -m vf.run'
 
 CHECKS = {
+    'C01': dict(
+        category='exploration',
+        technique='direct-call oracle: recording callables + ArgModel over the full signature '
+                  'lattice (exhaustive set-pattern enumeration in the thorough tier) and random DAGs',
+        text='build() is executed on the real tree and compared with the harness calling the '
+             'callable directly; held on every enumerated set-pattern of the 756-shape lattice '
+             '(argument values sampled) and on the sampled nestings; evidence lists counts.',
+        note='Trusted: ArgModel.call_args (vf/model.py), inspect.signature, vf.canon.',
+        design='§3 C01'),
+    'C02': dict(
+        category='exploration',
+        technique='offline checker over the invocation trace of uid-carrying recording callables '
+                  '(exactly-once, dependency order, isomorphism with direct evaluation, '
+                  'disjointness of builds) + id-reuse stress with a control experiment',
+        text='Held on the generated DAG shapes (sharing, clones, temporaries, depth sweep); '
+             'the id-reuse scenario is backed by a measured control (allocator recycles ids).',
+        note='Trusted: vf.gen.to_direct reference evaluation, vf.canon isomorphism.',
+        design='§3 C02'),
     'C03': dict(
         category='exploration',
         technique='lock-step reference-model monitor (ArgModel) over generated edit histories '
